@@ -211,8 +211,10 @@ def usesNamed : List Char → Bool
 /-! ## Characters a source text does not keep -/
 
 /-- NUL (rejected by `ast.parse`), the carriage return (newline translation) and the other
-characters at which `str.splitlines` splits (the `Formula` constructor re-joins the lines
-of a def with `\n`) -/
+characters at which `str.splitlines` splits (`FunctionDefParser` of the serializer still cuts a def
+with `splitlines` and re-joins the lines with `\n`; `remove_decorator`/`replace_funcname` do not any
+more since 067a1c5 - they cut at `\r\n`, `\r`, `\n` only (`_source_lines`), for which the
+statements below hold a fortiori) -/
 def sourceUnsafe : List Char :=
   [Char.ofNat 0, '\r', Char.ofNat 0x0b, Char.ofNat 0x0c, Char.ofNat 0x1c, Char.ofNat 0x1d,
    Char.ofNat 0x1e, Char.ofNat 0x85, Char.ofNat 0x2028, Char.ofNat 0x2029]
@@ -222,8 +224,8 @@ def otherBoundaries : List Char :=
   ['\r', Char.ofNat 0x0b, Char.ofNat 0x0c, Char.ofNat 0x1c, Char.ofNat 0x1d,
    Char.ofNat 0x1e, Char.ofNat 0x85, Char.ofNat 0x2028, Char.ofNat 0x2029]
 
-/-- `"\n".join(text.splitlines())`, as `remove_decorator` / `replace_funcname` (the `Formula`
-constructor of a def) and `FunctionDefParser` apply it to the source of a def: every line
+/-- `"\n".join(text.splitlines())`, as `FunctionDefParser` (`serializer_6.py`) applies it to the
+source of a def (and as `remove_decorator` / `replace_funcname` did before 067a1c5): every line
 boundary becomes a line feed (`\r\n` is one boundary), the final one is dropped.  The flag:
 the previous character was `\r`. -/
 def splitJoin : Bool → List Char → List Char
